@@ -244,10 +244,11 @@ def r1_transform(ctx, s):
     ctx.ob("R1.apply-copy", SUP, "AffineTransformation.apply", "superimposed_coord = mobile_coord.copy()",
            first is not None and ast.unparse(first) == "mobile_coord.copy()",
            "the in-place translation must not reach the caller's coordinates", ap.lineno)
-    ctx.ob("R1.apply-shape", SUP, "AffineTransformation.apply", "reshape(original_shape)",
-           any(ast.unparse(x) == "superimposed_coord.reshape(original_shape)" for x in d.get("superimposed_coord", []))
-           and ast.unparse(single_def(ap, "original_shape")) == "mobile_coord.shape"
-           and ast.unparse(d["mobile_coord"][0]) == "coord(atoms)",
+    # read off the composed result: the outermost operation on the coordinates is .reshape(<shape of the input coordinates>)
+    res_ = sm.result.body if isinstance(sm.result, ast.IfExp) else sm.result
+    ctx.ob("R1.apply-shape", SUP, "AffineTransformation.apply", "reshape(coord(atoms).shape)",
+           isinstance(res_, ast.Call) and isinstance(res_.func, ast.Attribute) and res_.func.attr == "reshape" and len(res_.args) == 1
+           and same_expr(res_.args[0], "coord(atoms).shape"),
            "the result has the shape of the input", ap.lineno)
     rets = [st for st in stmts(ap) if isinstance(st, ast.Return)]
     okr = sorted(ast.unparse(r.value) for r in rets) == ["superimposed", "superimposed_coord"] \
@@ -567,6 +568,7 @@ MUTANTS = [
     # one seeded fault per rule that had none
     Mutant("apply-returns-input-structure", SUP, "            superimposed = atoms.copy()\n", "            superimposed = atoms\n", "R1.apply-return"),
     Mutant("apply-returns-coord-only", SUP, "            superimposed.coord = superimposed_coord\n            return superimposed\n", "            return superimposed_coord\n", "R1.apply-return"),
+    Mutant("apply-shape-taken-after-lifting", SUP, "        original_shape = mobile_coord.shape\n        mobile_coord = _reshape_to_3d(mobile_coord)\n", "        mobile_coord = _reshape_to_3d(mobile_coord)\n        original_shape = mobile_coord.shape\n", "R1.apply-shape"),
     Mutant("apply-shape-not-restored", SUP, "        superimposed_coord = superimposed_coord.reshape(original_shape)\n", "", "R1.apply-shape"),
     Mutant("identity-helper-ones", SUP, "matrices = np.zeros((m, n, n), dtype=float)", "matrices = np.ones((m, n, n), dtype=float)", "R1.identity-helper"),
     Mutant("identity-helper-antidiagonal", SUP, "matrices[:, indices, indices] = 1", "matrices[:, indices, indices[::-1]] = 1", "R1.identity-helper"),
